@@ -3,8 +3,10 @@ from vlib import Suite, zlit, zlist, coqlist, blit
 
 ID = "C03"
 READY = True
-RULE = ("timelines on a 1/8 s grid for four switches (NO, NC, NO with timed activation/deactivation events, NC starting "
-        "active) of one real machine on the virtual clock: raw/logical reports by name or by number (about half of them "
+RULE = ("timelines on a 1/8 s grid for six switches (NO, NC, NO with timed activation/deactivation events, NC starting "
+        "active, NO with ignore_window_ms=250, NC with ignore_window_ms=375) of one real machine on the virtual clock; "
+        "changes land inside, exactly at and after the window end; in 40% of the cases mute/unmute (two sources) are "
+        "interleaved, half of those start with a pending hold on a switch that is then muted and released; raw/logical reports by name or by number (about half of them "
         "duplicates), registrations/removals of handlers drawn from a small pool of (callback,state,ms) triples (so exact "
         "duplicates, shared callbacks and re-registrations are frequent) through all public entry points, is_active/"
         "is_inactive(ms) queries, gaps of 0..8 grid steps (hold times 125..1000 ms, so changes, registrations and "
@@ -26,7 +28,9 @@ TRUSTED_BASE = [
 ]
 ASSUMPTIONS = [
     "callbacks and event handlers do not report switch changes synchronously (process_switch from inside a switch "
-    "callback is outside the model), switches are not muted, ignore_window_ms = 0, no timestamps passed by the platform",
+    "callback is outside the model), no timestamps passed by the platform; a timed handler registered while the "
+    "switch is muted is entered by the catch-up rule like on an unmuted switch (what the code does; the oracle "
+    "accepts exactly that)",
     "all instants and hold times are multiples of 125 ms (float arithmetic exact); hold times >= 0",
     "the loop runs a wake-up no later than any external operation with the same or a later timestamp",
 ]
@@ -597,7 +601,9 @@ SUITES = [
 
 LEVEL_TEXT = ("Machine-checked proof (Coq) over an executable model of one switch of SwitchController (with the three "
               "fixes/C03-*.patch applied), for all event sequences: logical state = last report; duplicates are no-ops; "
-              "untimed handlers once per change; exactly one wake-up handle per switch and no crash in "
+              "untimed handlers once per change; a muted change invokes nothing but drops the pending holds; every pending "
+              "entry and every invocation is for the state the switch is in; ignore-window semantics "
+              "(recycle_semantics_*); exactly one wake-up handle per switch and no crash in "
               "_process_active_timed_switches; a removed handler never fires; timed handlers fire exactly at "
               "change+ms iff held (see Props.v for the exact statements and guards).  The model is tied to the working "
               "tree by running both on the same generated timelines on every run, and a trace acceptor written from the "
